@@ -185,6 +185,9 @@ type Check struct {
 	ID    string
 	Level string // exploration | fault_enumeration
 	Race  bool   // needs the -race build
+	// Isolation: how many scenarios of a quick batch are re-executed as the first thing a fresh
+	// process does and compared with their outcome in the long-lived worker (0 = none)
+	Isolation int
 	// Runs per tier.
 	QuickRuns, ThoroughRuns int
 	// Gen derives a scenario from a seed. Pure.
